@@ -150,7 +150,7 @@ var targets = []Target{
 	{Func: "fragmentingReadState.isReadingArgument", Out: "isReadingArgument", Params: "(s : Z)", Ret: "bool"},
 	// C14: errors.go context-error mapping (cerr: 0 nil, 1 context.DeadlineExceeded, 2 context.Canceled,
 	// other values = any other error, passed through as 256+cerr), relay ttl arithmetic
-	{Func: "GetContextError", Out: "GetContextError", Params: "(cerr : Z)", Ret: "Z",
+	{Func: "GetContextError", Out: "GetContextError", File: "GenTTL", Params: "(cerr : Z)", Ret: "Z",
 		Hints: map[string]string{
 			"err == context.DeadlineExceeded": "(cerr =? 1)",
 			"err == context.Canceled":         "(cerr =? 2)",
